@@ -432,3 +432,29 @@ Theorem decode_all_total text sched dests :
   | Panic _ | OutOfFuel => False
   end.
 Proof. rewrite decode_all_spec. destruct (spec_dec4 text); exact I. Qed.
+
+(* drive_p is drive plus the bytes delivered so far *)
+Lemma drive_p_drive : forall fuel dests all acc st,
+  drive fuel dests all acc st =
+  match drive_p fuel dests all acc st with
+  | (a, Ok _) => Ok a
+  | (_, Err e) => Err e
+  | (_, Panic s) => Panic s
+  | (_, OutOfFuel) => OutOfFuel
+  end.
+Proof.
+  induction fuel as [|f IH]; intros dests all acc st; [reflexivity|].
+  cbn [drive drive_p]. destruct (next_dest dests all) as [d ds].
+  destruct (dec_read d st) as [[bs st']| | |]; cbn [bind]; try reflexivity.
+  destruct bs; [reflexivity|apply IH].
+Qed.
+
+Theorem decode_all_partial_agrees text sched dests :
+  decode_all text sched dests =
+  match decode_all_partial text sched dests with
+  | (a, Ok _) => Ok a
+  | (_, Err e) => Err e
+  | (_, Panic s) => Panic s
+  | (_, OutOfFuel) => OutOfFuel
+  end.
+Proof. apply drive_p_drive. Qed.
